@@ -471,7 +471,7 @@ func JudgeC07(sc *Scenario, tr *Transcript) *Verdict {
 			sp := &v.Spec.Shards[s]
 			// "near": idle for a little less than max-idle-time when the cycle began; not expired if the cycle
 			// ended in time, otherwise unknown (then it is not counted as in use: the weaker judgement)
-			idleExpired := sp.Idle == "expired" || (sp.Idle == "near" && !tr.NearStillFresh)
+			idleExpired := sp.Idle == "expired" || sp.Idle == "justExpired" || (sp.Idle == "near" && !tr.NearStillFresh)
 			if sp.Idle == "near" && tr.NearStillFresh && len(sp.Held) == 0 && v.InSync[s] && o.IdleOn {
 				vd.class("shard-idle-for-almost-max-idle-time")
 			}
